@@ -107,7 +107,7 @@ def strategy(tier):
             target = "str" if type(g[0][0]) is int else draw(st.sampled_from(["int", "str"]))
             tf["relabel"] = draw(gen.labels(n, target))
         if kind in ("reorder", "all"):
-            tf["reorder"] = {"nodes": list(draw(st.permutations(list(range(n))))), "rot": [draw(st.integers(0, 3)) for _ in range(n)]}
+            tf["reorder"] = {"nodes": gen.shuffled(draw, range(n)), "rot": [draw(st.integers(0, 3)) for _ in range(n)]}
         if kind in ("swap", "all"):
             tf["swap"] = True
         if kind in ("scale", "all"):
